@@ -1,6 +1,7 @@
 package main
 
 import (
+	"sync"
 	"fmt"
 	"runtime"
 	"runtime/debug"
@@ -449,6 +450,47 @@ func runC20(o *out, thorough bool, r *rng, _ []string) map[string]interface{} {
 		}
 	}
 	midData = nil
+	// a decoded message re-emitted from its own Message with one attribute dropped (values are views into its own
+	// buffer, everything behind the dropped one moves left): the buffer is large enough, nothing is allocated
+	for i := 0; i < 60; i++ {
+		data := r.validMessage(6, 24)
+		m := &stun.Message{Raw: make([]byte, 0, 512)}
+		if stun.Decode(data, m) != nil || len(m.Attributes) < 2 {
+			continue
+		}
+		drop := i % len(m.Attributes)
+		ss := []stun.Setter{stun.BindingSuccess, stun.NewTransactionIDSetter(m.TransactionID)}
+		for k, a := range m.Attributes {
+			if k != drop {
+				ss = append(ss, stun.RawAttribute{Type: a.Type, Value: a.Value})
+			}
+		}
+		_ = new(stun.Message).Build(ss[:2]...) // the runtime has seen the path
+		if nal := mallocsStable(func() { _ = m.Build(ss...) }); nal > 0 {
+			o.failFor("C20", "warm-op-allocates", fmt.Sprintf("x re-building a decoded message on its own Message (capacity 512) from views into its own buffer, attribute %d dropped: %d allocation(s): %s", drop, nal, fHex(data)))
+		}
+		o.count("rebuild-in-place")
+	}
+	// a Decode that FAILS among the attributes, then a well-formed one of the same shape as before it: the Message
+	// is as warm as it was
+	for i := 0; i < 60; i++ {
+		good := r.validMessage(2+r.intn(6), 24)
+		if len(good) < 28 {
+			continue
+		}
+		damaged := append([]byte(nil), good...)
+		damaged = damaged[:len(damaged)-1-r.intn(3)] // the last attribute is cut short
+		m := new(stun.Message)
+		_ = stun.Decode(good, m)
+		_ = stun.Decode(good, m)
+		if stun.Decode(damaged, m) == nil {
+			continue
+		}
+		if nal := mallocsStable(func() { _ = stun.Decode(good, m) }); nal > 0 {
+			o.failFor("C20", "warm-op-allocates", fmt.Sprintf("x Decode of %s into a Message that held it twice and then failed on %s: %d allocation(s)", fHex(good), fHex(damaged), nal))
+		}
+		o.count("decode-after-failed-decode")
+	}
 	for i := 0; i < n; i++ {
 		if i%200 == 199 {
 			runtime.GC() // bound the heap; the pools are warmed again before anything is measured
@@ -545,5 +587,44 @@ func runC20(o *out, thorough bool, r *rng, _ []string) map[string]interface{} {
 		}
 		emit([]int{10}, caps, cur.fields, obs, fmt.Sprintf("build maxunknown=%d", maxUnknown))
 	}
+	// many integrity checks in flight at once, each goroutine on a warm Message of its own: steady state means the
+	// pool serves them all (measured over the whole process; a few allocations of the runtime are tolerated)
+	runtime.GOMAXPROCS(oldProcs)
+	{
+		key := []byte("concurrent-key")
+		workers := 4 * oldProcs
+		msgs := make([]*stun.Message, workers)
+		for w := range msgs {
+			b := new(stun.Message)
+			_ = b.Build(stun.BindingRequest, stun.NewTransactionIDSetter([12]byte{byte(w)}), stun.NewSoftware("x"), stun.MessageIntegrity(key))
+			d := &stun.Message{Raw: make([]byte, 0, len(b.Raw)+64)}
+			_ = stun.Decode(b.Raw, d)
+			msgs[w] = d
+		}
+		round := func(iters int) {
+			var wg sync.WaitGroup
+			for w := 0; w < workers; w++ {
+				wg.Add(1)
+				go func(d *stun.Message) {
+					defer wg.Done()
+					for k := 0; k < iters; k++ {
+						_ = stun.MessageIntegrity(key).Check(d)
+					}
+				}(msgs[w])
+			}
+			wg.Wait()
+		}
+		round(200) // warm: every P's pool slot is filled
+		round(200)
+		runtime.ReadMemStats(&msA)
+		round(2000)
+		runtime.ReadMemStats(&msB)
+		total := workers * 2000
+		if d := msB.Mallocs - msA.Mallocs; d > uint64(total/50+256) {
+			o.failFor("C20", "warm-op-allocates", fmt.Sprintf("x %d goroutines x 2000 integrity checks on warm Messages of their own: %d allocations (steady state: about one per goroutine started)", workers, d))
+		}
+		o.countN("concurrent-integrity-checks", total)
+	}
+	runtime.GOMAXPROCS(1)
 	return map[string]interface{}{"exhaustive": false}
 }
